@@ -2,6 +2,7 @@ package harness
 
 import (
 	"fmt"
+	"sync"
 	"time"
 
 	"seehuhn.de/go/sfnt/opentype/gtab"
@@ -80,52 +81,73 @@ func c02ReencodeLimits(r *run.Run) {
 		_, err, pm, _ := c02RunOne(seeds[cs.gpos], c02GtabWrap(cs.typ, b), 120*time.Second)
 		return err == nil && pm == ""
 	}
-	var cases []*caseT
-	for k := range c08ScaledKinds {
-		lo, hi := 1, 40000 // largest n the encoder writes within 64 KiB
-		for lo < hi {
-			mid := (lo + hi + 1) / 2
-			if sub, _, _ := encode(k, mid); sub != nil {
-				lo = mid
-			} else {
-				hi = mid - 1
-			}
-		}
-		for _, n := range []int{lo, lo * 3 / 4, lo / 2, 1} {
-			if n < 1 {
-				continue
-			}
-			sub, typ, gpos := encode(k, n)
-			if sub == nil {
-				continue
-			}
-			for _, f := range c02OffsetFields[k] {
-				cs := &caseT{kind: k, n: n, pos: f[0], classdef: f[1] == 1, typ: typ, gpos: gpos, sub: sub}
-				// the largest replacement table the reader accepts (bisection; acceptance is monotone on the unchanged tree)
-				a, b := 0, 32767
-				for a < b {
-					mid := (a + b + 1) / 2
-					if accepted(cs, mid) {
-						a = mid
-					} else {
-						b = mid - 1
-					}
+	// the cases of one subtable kind are built when the first execution asks for them (the bisections
+	// take seconds; worker processes of other parts must not pay for them)
+	nvals, maxFields := 4, 4
+	type kindCases struct {
+		once  sync.Once
+		cases map[[2]int]*caseT // (index of the entry count, index of the offset field)
+	}
+	perKind := make([]kindCases, len(c08ScaledKinds))
+	build := func(k int) map[[2]int]*caseT {
+		kc := &perKind[k]
+		kc.once.Do(func() {
+			kc.cases = map[[2]int]*caseT{}
+			lo, hi := 1, 40000 // largest n the encoder writes within 64 KiB
+			for lo < hi {
+				mid := (lo + hi + 1) / 2
+				if sub, _, _ := encode(k, mid); sub != nil {
+					lo = mid
+				} else {
+					hi = mid - 1
 				}
-				cs.mAcc = a
-				cases = append(cases, cs)
 			}
-		}
+			for ni, n := range []int{lo, lo * 3 / 4, lo / 2, 1} {
+				if n < 1 {
+					continue
+				}
+				sub, typ, gpos := encode(k, n)
+				if sub == nil {
+					continue
+				}
+				for fi, f := range c02OffsetFields[k] {
+					cs := &caseT{kind: k, n: n, pos: f[0], classdef: f[1] == 1, typ: typ, gpos: gpos, sub: sub}
+					// the largest replacement table the reader accepts (bisection; acceptance is monotone on the unchanged tree)
+					a, b := 0, 32767
+					for a < b {
+						mid := (a + b + 1) / 2
+						if accepted(cs, mid) {
+							a = mid
+						} else {
+							b = mid - 1
+						}
+					}
+					cs.mAcc = a
+					kc.cases[[2]int{ni, fi}] = cs
+				}
+			}
+		})
+		return kc.cases
 	}
 	fixed := []int{1, 2, 100, 5000, 16000, 32767}
 	r.Explore(explore.Config{Name: "C02.reencode-limits", Deadline: r.PartDeadline(0.3)},
-		fmt.Sprintf("%d subtable kinds (as in C08.subtable-limit) with {largest, 3/4, 1/2 of the largest, 1} entry counts the encoder writes within 64 KiB, every coverage / class definition offset of the subtable re-pointed at an appended table of m entries, m in %v and -2..+3 around the largest m the reader accepts (bisection): gtab.Read returns an error or a value whose Encode does not panic (%d (subtable, offset field) cases)", len(c08ScaledKinds), fixed, len(cases)),
+		fmt.Sprintf("%d subtable kinds (as in C08.subtable-limit) with {largest, 3/4, 1/2 of the largest, 1} entry counts the encoder writes within 64 KiB, every coverage / class definition offset of the subtable re-pointed at an appended table of m entries, m in %v and -2..+3 around the largest m the reader accepts (bisection): gtab.Read returns an error or a value whose Encode does not panic", len(c08ScaledKinds), fixed),
 		func(c *explore.Ctx) {
-			cs := cases[c.Choose(len(cases), "subtable, entry count and offset field")]
+			k := c.Choose(len(c08ScaledKinds), "subtable kind")
+			ni := c.Choose(nvals, "entry count")
+			fi := c.Choose(maxFields, "offset field")
+			if fi >= len(c02OffsetFields[k]) {
+				c.Skip("no such offset field")
+			}
+			cs := build(k)[[2]int{ni, fi}]
+			if cs == nil {
+				c.Skip("the encoder does not write this entry count")
+			}
 			var m int
-			if k := c.Choose(len(fixed)+6, "entries of the replacement table"); k < len(fixed) {
-				m = fixed[k]
+			if mk := c.Choose(len(fixed)+6, "entries of the replacement table"); mk < len(fixed) {
+				m = fixed[mk]
 			} else {
-				m = cs.mAcc - 2 + (k - len(fixed))
+				m = cs.mAcc - 2 + (mk - len(fixed))
 			}
 			if m < 1 || m > 32767 {
 				c.Skip("replacement table size out of range")
